@@ -5,4 +5,5 @@ CONSTANTS
  Dev = "noResid"
  FixedOrder = TRUE
 INVARIANT RoundTripI
+INVARIANT FastAgrees
 CHECK_DEADLOCK FALSE
